@@ -1539,7 +1539,7 @@ Theorem session_retention ops :
   sess_run false ops = fold_left insert (inserted ops) (new_grid 1 1 module_resolution).
 Proof.
   unfold sess_run. generalize (new_grid 1 1 module_resolution).
-  induction ops as [|[| |q] ops IH]; intro g; cbn [fold_left sess_step inserted]; auto.
+  induction ops as [|[| |q] ops IH]; intro g; cbn [fold_left sess_step inserted]; [reflexivity|apply IH..].
 Qed.
 
 (* with an Init that replaces the grid at every join the stored planes are lost (finding F3) *)
